@@ -38,16 +38,24 @@ impl SchemeSpec {
     /// (constructor) x (state the behaviour explicitly | rely on the default when it is the
     /// default) are exercised (`route`).
     pub fn build(&self) -> Scheme {
-        self.build_via(self.route & 1 == 0, self.route & 2 == 0)
+        self.build_via(self.route & 1 == 0, self.route & 2 == 0, self.route & 4 != 0)
     }
 
-    pub fn build_via(&self, via_new: bool, explicit_nil_ne: bool) -> Scheme {
+    /// `rejected`: every successful registration is followed by attempts to register the same
+    /// name / list type again (as a field, as a function, as the other list kind); they must
+    /// fail and — a rejected registration changes nothing — leave the scheme as it was.
+    pub fn build_via(&self, via_new: bool, explicit_nil_ne: bool, rejected: bool) -> Scheme {
         let mut b = if via_new { SchemeBuilder::new() } else { SchemeBuilder::default() };
-        for f in &self.fields {
+        for (k, f) in self.fields.iter().enumerate() {
             if f.optional {
                 b.add_optional_field(&f.name, f.ty).unwrap();
             } else {
                 b.add_field(&f.name, f.ty).unwrap();
+            }
+            if rejected && k % 7 == 0 {
+                assert!(b.add_field(&f.name, Type::Bool).is_err(), "field registered twice");
+                assert!(b.add_optional_field(&f.name, f.ty).is_err(), "field registered twice");
+                assert!(b.add_function(&f.name, funcs::simple("echo").unwrap()).is_err(), "function over a field");
             }
         }
         for (name, fname) in &self.funcs {
@@ -64,6 +72,18 @@ impl SchemeSpec {
                 'a' => b.add_list(*ty, AlwaysList {}).unwrap(),
                 'n' => b.add_list(*ty, NeverList {}).unwrap(),
                 _ => b.add_list(*ty, funcs::SetsList).unwrap(),
+            }
+            if rejected {
+                // a second list for the same type, of another kind, is refused
+                match kind {
+                    'a' => assert!(b.add_list(*ty, NeverList {}).is_err(), "list registered twice"),
+                    _ => assert!(b.add_list(*ty, AlwaysList {}).is_err(), "list registered twice"),
+                }
+            }
+        }
+        if rejected {
+            if let Some((name, _)) = self.funcs.first() {
+                assert!(b.add_field(name, Type::Int).is_err(), "field over a function");
             }
         }
         if explicit_nil_ne || !self.nil_ne {
@@ -104,7 +124,7 @@ impl SchemeSpec {
         let join = |v: Vec<String>| if v.is_empty() { ".".to_string() } else { v.join(",") };
         format!(
             "scheme {} {} {} {} {} {}",
-            format!("{}{}", if self.nil_ne { 1 } else { 0 }, ["", "a", "b", "c"][(self.route & 3) as usize]),
+            format!("{}{}", if self.nil_ne { 1 } else { 0 }, ["", "a", "b", "c", "d", "e", "f", "g"][(self.route & 7) as usize]),
             self.max_depth,
             self.star_limit.map_or("-".to_string(), |l| l.to_string()),
             join(self
